@@ -177,7 +177,7 @@ func (g *Gen) Cfg(name string) IndexCfg {
 	c := vkit.Pick(g.R, combos)
 	cfg := IndexCfg{
 		Name: name, Metric: distance.DistanceMetric(c[0]), Prec: distance.PrecisionType(c[1]),
-		M: vkit.Pick(g.R, []int{2, 4, 16}), EfC: vkit.Pick(g.R, []int{4, 8, 200}),
+		M: vkit.Pick(g.R, []int{2, 4, 16, 0}), EfC: vkit.Pick(g.R, []int{4, 8, 200, 0}), // 0 = the engine's default (16 / 200)
 		Lang: vkit.Pick(g.R, []string{"", "english", "italian"}),
 	}
 	if g.R.Chance(0.3) {
@@ -186,13 +186,14 @@ func (g *Gen) Cfg(name string) IndexCfg {
 		mc.RefineEnabled = g.R.Chance(0.5)
 		mc.RefineBatchSize = g.R.Range(1, 50)
 		mc.VacuumInterval = hnsw.Duration(time.Duration(g.R.Range(1, 100)) * time.Minute)
+		g.maintExtras(&mc)
 		cfg.Maint = &mc
 	}
 	if !g.NoAutoLinks && g.R.Chance(0.25) {
 		cfg.AutoLinks = []hnsw.AutoLinkRule{{MetadataField: "cat", RelationType: "in_cat"}}
 	}
 	if !g.NoMemory && g.R.Chance(0.25) {
-		mem := hnsw.MemoryConfig{Enabled: true, DecayModel: vkit.Pick(g.R, []hnsw.DecayModel{hnsw.DecayExponential, hnsw.DecayLinear, hnsw.DecayStep, hnsw.DecayEbbinghaus}),
+		mem := hnsw.MemoryConfig{Enabled: !g.R.Chance(0.15), DecayModel: vkit.Pick(g.R, []hnsw.DecayModel{hnsw.DecayExponential, hnsw.DecayLinear, hnsw.DecayStep, hnsw.DecayEbbinghaus}),
 			DecayHalfLife: hnsw.Duration(time.Duration(g.R.Range(1, 72)) * time.Hour)}
 		if g.R.Chance(0.5) {
 			mem.Layers = map[string]hnsw.LayerConfig{
@@ -200,9 +201,28 @@ func (g *Gen) Cfg(name string) IndexCfg {
 				"procedural": {DecayHalfLife: 0, PinnedByDefault: true},
 			}
 		}
+		if g.R.Chance(0.3) {
+			mem.Consolidation = hnsw.ConsolidationConfig{SimilarityThreshold: 0.8, MaxEpisodicAge: hnsw.Duration(48 * time.Hour)}
+		}
 		cfg.Mem = &mem
 	}
 	return cfg
+}
+
+// maintExtras sets the less common maintenance fields to non-default values (a field that a
+// journal record, the snapshot or the compression carry-over drops shows only when it is
+// not the default). Intervals stay far above any run time: no timer fires.
+func (g *Gen) maintExtras(mc *hnsw.AutoMaintenanceConfig) {
+	if g.R.Chance(0.5) {
+		mc.GraphVacuumInterval = hnsw.Duration(time.Duration(g.R.Range(2, 50)) * time.Hour)
+		mc.RefineInterval = hnsw.Duration(time.Duration(g.R.Range(61, 600)) * time.Minute)
+		mc.RefineEfConstruction = g.R.Range(0, 300)
+	}
+	if g.R.Chance(0.3) {
+		mc.ArenaCompaction.Threshold = float64(g.R.Range(1, 9)) / 10
+		mc.ArenaCompaction.BatchSize = g.R.Range(1, 500)
+		mc.ArenaCompaction.Enabled = g.R.Chance(0.5)
+	}
 }
 
 func (g *Gen) liveIndexes(m *Model) []string { return sortedKeys(m.Idx) }
@@ -221,6 +241,15 @@ func (g *Gen) pickLive(m *Model, index string) (string, bool) {
 		return "", false
 	}
 	return vkit.Pick(g.R, sortedKeys(mi.Recs)), true
+}
+
+// Weight: small integers (so that re-links often repeat the current weight), sometimes a
+// fraction, a negative or a huge value.
+func (g *Gen) Weight() float32 {
+	if g.R.Chance(0.15) {
+		return vkit.Pick(g.R, []float32{0.1, -2.5, 1e30, 1.5e-7})
+	}
+	return float32(g.R.Intn(3))
 }
 
 func (g *Gen) Props() map[string]any {
@@ -371,11 +400,21 @@ func (g *Gen) Step(x *Exec) {
 			mc := hnsw.DefaultMaintenanceConfig()
 			mc.DeleteThreshold = float64(r.Range(1, 9)) / 10
 			mc.RefineBatchSize = r.Range(1, 99)
+			g.maintExtras(&mc)
 			x.VUpdateIndexConfig(ix, mc)
 		}
 	case p < 97:
 		if m.Idx[ix] != nil && !g.NoAutoLinks {
-			x.VUpdateAutoLinks(ix, []hnsw.AutoLinkRule{{MetadataField: vkit.Pick(r, []string{"cat", "num"}), RelationType: "al"}})
+			rules := []hnsw.AutoLinkRule{{MetadataField: vkit.Pick(r, []string{"cat", "num"}), RelationType: "al"}}
+			switch r.Intn(6) {
+			case 0:
+				rules = nil // clearing the rules is an update like any other
+			case 1:
+				rules = []hnsw.AutoLinkRule{}
+			case 2:
+				rules = append(rules, hnsw.AutoLinkRule{MetadataField: "flag", RelationType: "al2", CreateNode: true})
+			}
+			x.VUpdateAutoLinks(ix, rules)
 		}
 	case p < 99:
 		if !g.NoDrop {
